@@ -265,7 +265,7 @@ def connectionFailed (s : Sess) : Sess :=
   match s.st with
   | .connect => (((s.setRetry none).closeConn).setSt .idle).connectionClosed s.proto
   | .active => (s.setRetry (some s.retryDeadline)).setSt .idle
-  | .openSent => (((s.closeConn).setRetry (some s.retryDeadline)).setSt .active).connectionClosed s.proto
+  | .openSent => ((((s.closeConn).setRetry (some s.retryDeadline)).setHold none).setSt .active).connectionClosed s.proto
   | .openConfirm => s.errorClose
   | .established => s.errorClose
   | .idle => s
@@ -371,7 +371,7 @@ def fsmUpdateReceived (s : Sess) : Sess :=
 def fsmNotificationReceived (s : Sess) (err sub : Nat) : Sess :=
   if err = C.errOpen ∧ sub = 1 then
     match s.st with
-    | .openSent | .openConfirm => ((s.setRetry none).closeConn).setSt .idle
+    | .openSent | .openConfirm => ((((s.setRetry none).setHold none).setKeepalive none).closeConn).setSt .idle
     | .connect | .active => s.errorClose
     | .established => s.errorClose
     | .idle => s
